@@ -343,6 +343,12 @@ package multiplex
 //@   # the table keeps a nil tombstone for the id, so that late frames of the dead stream are dropped instead of re-creating it
 //@   ensures tombstone: ret0 == nil && !sesh.Singleplex ==> mapHas(sesh.streams, s.id) && sesh.streams[s.id] == nil
 //@   ensures idKept: s.writingFrame.StreamID == old(s.writingFrame.StreamID)
+//@   # C03: the closing notice is a well-formed closing frame: closing flag set, 1..256 bytes of padding
+//@   # (an empty payload would be refused by the peer's decoder, and the peer would never see the close)
+//@   atcall obfuscateAndSend requires closingFrame: s.writingFrame.Closing == closingStream && len(s.writingFrame.Payload) >= 1 && len(s.writingFrame.Payload) <= 256
+//@   # C12: the active-stream count goes down exactly when this call closed the stream (and got its notice out)
+//@   ensures countedOnce: calls("(*Session).streamCountDecr") <= 1 && (ret0 == nil ==> calls("(*Session).streamCountDecr") == 1)
+//@   ensures repeatedCloseCountsNothing: old(s.closed) != 0 ==> ret0 != nil && calls("(*Session).streamCountDecr") == 0
 //@   modifies *
 //@   preserves Frame.StreamID, Stream.id, Stream.session, Session.sb, SessionConfig.MsgOnWireSizeLimit, Session.maxStreamUnitWrite, Session.streamSendBufferSize, SessionConfig.Unordered, SessionConfig.Valve, SessionConfig.Singleplex, Obfuscator.payloadCipher, switchboard.session, switchboard.valve, heap(B_Slice)
 
@@ -365,10 +371,14 @@ package multiplex
 //@   requires s.session != nil && seshOK(s.session) && s.session.sb.session != nil && s.session.sb.valve != nil
 //@   requires notHeld: holdsNone()
 //@   ensures idKept: s.writingFrame.StreamID == old(s.writingFrame.StreamID)
+//@   # C03: a chunk is sent only after the stream was seen open AFTER the read that produced it (the read
+//@   # may have been unblocked by a Close): nothing is written on a stream closed in the meantime
+//@   atcall obfuscateAndSend requires recheckedAfterRead: calls("(*Stream).isClosed") == calls("(io.Reader).Read")
 //@   modifies *
 //@   preserves Frame.StreamID, Stream.id, Stream.session, Session.sb, SessionConfig.MsgOnWireSizeLimit, Session.maxStreamUnitWrite, Session.streamSendBufferSize, SessionConfig.Unordered, SessionConfig.Valve, SessionConfig.Singleplex, Obfuscator.payloadCipher, switchboard.session, switchboard.valve
 //@   loop 0 invariant sesh: s.session != nil && seshOK(s.session) && s.session.sb.session != nil && s.session.sb.valve != nil
 //@   loop 0 invariant nolocks: holdsNone()
+//@   loop 0 invariant rechecks: calls("(*Stream).isClosed") == calls("(io.Reader).Read")
 //@   loop 0 invariant id: s.writingFrame.StreamID == old(s.writingFrame.StreamID)
 
 // ---------------------------------------------------------------------------------------------
@@ -570,3 +580,31 @@ package multiplex
 //@   atcall AddUint32 requires storedBeforePublished: called("(*sync.Map).LoadOrStore")
 //@   flag noframe
 //@   loop 0 invariant live: sb != nil && conn != nil
+
+// ---------------------------------------------------------------------------------------------
+// C12: stream count bookkeeping and the inactivity timer
+// ---------------------------------------------------------------------------------------------
+//@ func (*Session).streamCount
+//@   requires sesh != nil
+//@   modifies sesh.activeStreamCount
+// OpenStream: the count goes up exactly when a stream is handed out; a refused open (closed session,
+// second stream of a singleplex session) counts nothing.
+//@ func (*Session).OpenStream
+//@   requires sesh != nil && holdsNone()
+//@   ensures countedIffOpened: calls("(*Session).streamCountIncr") <= 1 && ((ret1 == nil) == (calls("(*Session).streamCountIncr") == 1))
+//@   ensures streamOnSuccess: ret1 == nil ==> ret0 != nil
+//@   ensures locks: holdsNone()
+//@   flag noframe
+// checkTimeout: the inactivity timer closes the session only if it saw NO open stream.
+//@ func (*Session).checkTimeout
+//@   requires sesh != nil && holdsNone()
+//@   atcall Close requires sawNoOpenStream: lastret("(*Session).streamCount") == 0
+//@   flag noframe
+
+// Stream.Read (C03): the end of the receive buffer (closed and drained) is reported as ErrBrokenStream,
+// bytes still buffered are delivered first.
+//@ func (*Stream).Read
+//@   requires s != nil && s.recvBuf != nil
+//@   ensures eofIsBrokenStream: err != io.EOF
+//@   ensures countOnSuccess: err == nil ==> 0 <= n && n <= len(buf)
+//@   flag noframe
